@@ -109,7 +109,8 @@ Seeds == << <<"*", " ", "*", " ", "*", " ", "*", " ", "*">>,
             <<"5", "9", " ", "0", " ", "1", " ", "j", "a", "n", ",", "D", "E", "C", " ", "0", "-", "6">>,
             <<"0", " ", "0", " ", "1", "-", "7", " ", "*", "/", "3", " ", "s", "u", "n", ",", "s", "a", "t">>,
             <<"3", "0", " ", "*", "/", "1", "2", " ", "1", "5", " ", "f", "e", "b", "-", "n", "o", "v", " ", "5", "-", "7">>,
-            <<"*", " ", "*", " ", "*", "/", "3", "1", " ", "*", "/", "1", "2", " ", "*", "/", "7">> >>
+            <<"*", " ", "*", " ", "*", "/", "3", "1", " ", "*", "/", "1", "2", " ", "*", "/", "7">>,
+            <<"*", "/", "0", " ", "*", " ", "*", " ", "*", " ", "*", "/", "0">> >>
 Delete(s, i) == SubSeq(s, 1, i - 1) \o SubSeq(s, i + 1, Len(s))
 Insert(s, i, c) == SubSeq(s, 1, i - 1) \o <<c>> \o SubSeq(s, i, Len(s))
 Subst(s, i, c) == [s EXCEPT ![i] = c]
